@@ -124,19 +124,12 @@ def serTokensTop (env : Env) (t : Tree) : Except XotError (List Token) := serTok
 
 /-! ### The round-trip domain -/
 
-def xmlNamespaceUri : Str :=
-  ['h', 't', 't', 'p', ':', '/', '/', 'w', 'w', 'w', '.', 'w', '3', '.', 'o', 'r', 'g', '/', 'X', 'M', 'L', '/',
-   '1', '9', '9', '8', '/', 'n', 'a', 'm', 'e', 's', 'p', 'a', 'c', 'e']
-
 /-- Is the name id the attribute name `xml:id` (by expanded name)? -/
 def isXmlIdName (env : Env) (name : Nat) : Bool :=
   env.nsOfName name == Env.xmlNamespace && env.localName name == ['i', 'd']
 
 /-- A non-empty NCName as `consume_qname` reads it. -/
 def ncNameNE (s : Str) : Bool := ncNameOK s && !s.isEmpty
-
-/-- ASCII lower-casing (for the reserved PI target `xml` in any letter case). -/
-def asciiLowerChar (c : Char) : Char := if 65 ≤ c.toNat && c.toNat ≤ 90 then Char.ofNat (c.toNat + 32) else c
 
 /-- The interning tables hold the built-in values of `Xot::new` at their ids and no value twice. -/
 def envOK (env : Env) : Bool :=
